@@ -42,6 +42,37 @@
 //	(the recursive calls included), so fuel bounds the depth of the recursion.  Mutual
 //	recursion and a recursive call inside a loop are not supported.
 //
+//	Data built and changed in place (data.go, vocabulary Lib/GoSemData.v): make([]T, n) and
+//	element stores for every supported T, owned results of library functions marked Fresh,
+//	append targets that are cut back (x = x[:0]), maps that are written (Config.AssocMaps:
+//	association lists), function literals handed to library functions, opaque library types
+//	such as bytes.Buffer with calls that change them (LibFunc.Mutates), ...any operands of
+//	fmt, min/max, local constants; the conditions are stated at the top of data.go.
+//
+//	Methods with a pointer receiver (Config.Funcs "T.m"; the receiver is a record of the
+//	fields the table names, Struct.Partial; state passing for the fields that are assigned),
+//	calls that do not return (Config.NoReturn: the result type becomes an exit), maps held
+//	across calls that are written and may be nil (Config.RefMaps), appends to owned fields
+//	of the receiver (Struct.Owned): methods.go, vocabulary Lib/GoSemState.v.
+//
+//	State passing in full (Config.StatePassing): calls that change the receiver anywhere in an
+//	expression, methods called on a local pointer variable, pointer parameters *[]T, library
+//	types used as linear state (Config.StateTypes, LibFunc.State), error values that can be
+//	compared (Config.ErrorValues, Config.ExtVars), expression switches, panic(constant):
+//	state.go, vocabulary Lib/GoSemIO.v; the conditions are stated at the top of state.go.
+//
+//	Pure segments of functions and methods that do I/O before and after (Config.Segments: a run
+//	of statements of one block delimited by named calls, or the condition of the if statement
+//	that guards a named call; a function of the locals it reads -- the receiver included, a
+//	pointer to a struct read-only as the struct -- with the value res (outcome V L R)):
+//	segment.go.  Inside them and elsewhere (ext.go, vocabulary Lib/GoSemSeg.v): int64 and
+//	named types over it (constants and comparisons only), [N]byte as a value (index, ==, and
+//	x[:] only as the argument a library function writes into, LibFunc.Out), named library
+//	types that are only passed on (Config.Types), ...any operands wrapped by kind (go_any),
+//	&T{...} as a non-nil error, local function constants inlined at their calls, reads of the
+//	clock as parameters of a segment (LibFunc.Input); the conditions are stated at the top of
+//	ext.go and segment.go.
+//
 // Soundness conditions of the value semantics of slices, checked per function: element
 // stores and copy only into a local made by make and used linearly; append only as
 // x = append(x, ...) on a local (or a field of a local struct made by new/zero/literal)
@@ -67,6 +98,18 @@ type LibFunc struct {
 	Coq     string // Coq function applied to the translated arguments, in Go's order
 	Monadic bool   // the Coq function returns res T (it can panic)
 	IsError bool   // the call constructs a non-nil error: it denotes true (arguments must be pure)
+	Fresh   bool   // the result is a newly allocated slice that shares no memory with anything else (data.go)
+	Mutates bool   // a call statement that replaces the value of its first argument x / &x, a local of an opaque type (data.go)
+	// State: a method that changes its receiver, a value of a type of Config.StateTypes: the Coq
+	// function takes the receiver's value first and returns the tuple (receiver afterwards,
+	// results...); Volatile: a slice result is valid only until the next call on the receiver (state.go)
+	State    bool
+	Volatile bool
+	// ext.go: Out: the function writes into its Out-th argument (1-based; 0 = none), x[:] of a local
+	// array; Input: the call only reads the environment (a clock): inside a Segment its value is a
+	// parameter of the segment
+	Out   int
+	Input bool
 }
 
 // Field maps one struct field to the Coq projection.
@@ -77,6 +120,11 @@ type Struct struct {
 	CoqType string  // Coq type
 	Ctor    string  // constructor, applied to the fields in declaration order
 	Fields  []Field // in declaration order
+	// Partial: Fields lists only the fields the translated methods touch (any order); the
+	// access of any other field is Unsupported.  Owned: slice fields of a receiver to which
+	// x.f = append(x.f, ...) is allowed (see methods.go)
+	Partial bool
+	Owned   []string
 }
 
 // Config is the source-specific table.
@@ -93,6 +141,33 @@ type Config struct {
 	Vars map[string]string
 	// Prefixes: pure prefixes of functions that go on with effects (see Prefix).
 	Prefixes []Prefix
+	// AssocMaps: every map[string]T is the association list gomap T (needed for maps that are
+	// written) instead of the total function bytes -> T; Opaque: library types "importpath.Name"
+	// used only through table functions (see data.go).
+	AssocMaps bool
+	Opaque    map[string]Opaque
+	// NoReturn: functions / methods ("f", "T.m") of the translated package that never return;
+	// RefMaps: map types (types.TypeString) that are read and written and may be nil (see
+	// methods.go).  Methods are named "T.m" in Funcs.
+	NoReturn []string
+	RefMaps  []string
+	// Frame: methods "T.m" that leave the denoted fields of their receiver alone; a call
+	// statement evaluates the arguments and is dropped (see methods.go)
+	Frame []string
+	// state.go: StatePassing: full state passing for pointer receivers and pointer parameters;
+	// StateTypes: library types whose values are state used linearly, types.TypeString of the type
+	// ("*bufio.Reader", "io.Reader") -> Coq type; ErrorValues: error values are GoSemIO.goerr (nil,
+	// or the sentinel a package-level variable holds) instead of the bool "is not nil"; ExtVars:
+	// package-level variables of other packages, "importpath.Name" -> Coq term.
+	StatePassing bool
+	StateTypes   map[string]string
+	ErrorValues  bool
+	ExtVars      map[string]string
+	// Segments: pure segments of functions and methods that go on with effects (segment.go).
+	// Types: named library types with a table denotation whose values are only passed on
+	// (ext.go): "importpath.Name" -> denotation.
+	Segments []Segment
+	Types    map[string]LibType
 }
 
 // Prefix asks for the translation of the pure beginning of a block of an otherwise
@@ -147,6 +222,10 @@ type translator struct {
 	pkgVars   map[types.Object]string
 	pkgVarTx  []string
 	out       strings.Builder
+
+	// methods.go: does a method change its receiver; the partial struct types
+	mutates map[string]int
+	partial map[*types.Named]*types.Struct
 }
 
 type stubImporter struct {
@@ -189,6 +268,10 @@ func (im *stubImporter) Import(path string) (*types.Package, error) {
 func Translate(fset *token.FileSet, files []*ast.File, pkgPath string, cfg *Config) (res *Result, err error) {
 	t := &translator{cfg: cfg, fset: fset, files: files, decls: map[string]*ast.FuncDecl{},
 		needFuel: map[string]bool{}, recursive: map[string]bool{}, pkgVars: map[types.Object]string{}}
+	cfg = normaliseFuncs(cfg) // methods.go: "T.m" -> "T_m"
+	t.cfg = cfg
+	curNoReturn = func(n ast.Node) bool { return t.noReturnCall(n) != "" }
+	defer func() { curNoReturn = nil }()
 	defer func() {
 		if r := recover(); r != nil {
 			if u, ok := r.(*Unsupported); ok {
@@ -217,6 +300,15 @@ func Translate(fset *token.FileSet, files []*ast.File, pkgPath string, cfg *Conf
 			}
 		}
 	}
+	for _, f := range files {
+		for _, d := range f.Decls {
+			if fd, ok := d.(*ast.FuncDecl); ok && fd.Recv != nil {
+				t.addMethod(fd)
+			}
+		}
+	}
+	t.checkNoReturn()
+	t.checkFrame()
 	for _, name := range cfg.Funcs {
 		fd := t.decls[name]
 		if fd == nil || fd.Body == nil {
@@ -242,6 +334,11 @@ func Translate(fset *token.FileSet, files []*ast.File, pkgPath string, cfg *Conf
 	}
 	for _, p := range cfg.Prefixes {
 		tx, name := t.prefix(p)
+		body.WriteString(tx)
+		names = append(names, name)
+	}
+	for _, sg := range cfg.Segments { // segment.go
+		tx, name := t.segment(sg)
 		body.WriteString(tx)
 		names = append(names, name)
 	}
@@ -275,6 +372,9 @@ func inSet(xs []string, x string) bool {
 
 // callee returns the name of the translated function a call invokes, "" if none.
 func (t *translator) callee(call *ast.CallExpr) string {
+	if key := t.methodCallee(call); key != "" && inSet(t.cfg.Funcs, key) {
+		return key
+	}
 	id, ok := ast.Unparen(call.Fun).(*ast.Ident)
 	if !ok {
 		return ""
@@ -374,6 +474,7 @@ const (
 	kTuple
 	kRune
 	kMap
+	kRefMap // a map that is read and written and may be nil (methods.go)
 )
 
 func (t *translator) structOf(T types.Type) (Struct, *types.Struct, bool) {
@@ -387,6 +488,9 @@ func (t *translator) structOf(T types.Type) (Struct, *types.Struct, bool) {
 		return Struct{}, nil, false
 	}
 	s, ok := t.cfg.Structs[n.Obj().Pkg().Path()+"."+n.Obj().Name()]
+	if ok && s.Partial {
+		return t.partialStruct(s, n, st)
+	}
 	if !ok || len(s.Fields) != st.NumFields() {
 		return Struct{}, nil, false
 	}
@@ -403,11 +507,20 @@ func (t *translator) kindOf(T types.Type) kind {
 		return kOther
 	}
 	T = types.Unalias(T)
+	if k, ok := t.kindExt(T); ok { // ext.go
+		return k
+	}
+	if t.isStateType(T) {
+		return kState // state.go
+	}
 	if n, ok := T.(*types.Named); ok && n.Obj().Pkg() == nil && n.Obj().Name() == "error" {
 		return kError
 	}
 	if _, _, ok := t.structOf(T); ok {
 		return kStruct
+	}
+	if _, ok := t.opaqueOf(T); ok {
+		return kOpaque
 	}
 	switch u := T.Underlying().(type) {
 	case *types.Basic:
@@ -434,7 +547,13 @@ func (t *translator) kindOf(T types.Type) kind {
 		if _, _, ok := t.structOf(u.Elem()); ok {
 			return kPtrStruct
 		}
+		if k := t.kindOf(u.Elem()); t.cfg.StatePassing && (k == kSlice || k == kBytes) {
+			return kPtrVal // state.go
+		}
 	case *types.Map:
+		if t.isRefMap(u) && t.kindOf(u.Key()) == kString && t.kindOf(u.Elem()) != kOther {
+			return kRefMap
+		}
 		// a map with string keys whose values have a zero value here; only read (see expr)
 		if t.kindOf(u.Key()) == kString {
 			switch t.kindOf(u.Elem()) {
@@ -449,11 +568,29 @@ func (t *translator) kindOf(T types.Type) kind {
 }
 
 func (t *translator) coqType(n ast.Node, T types.Type) string {
+	if s, ok := t.coqTypeExt(n, T); ok { // ext.go
+		return s
+	}
+	if t.cfg.ErrorValues && t.kindOf(T) == kError {
+		return "goerr" // state.go
+	}
 	switch t.kindOf(T) {
+	case kState:
+		return t.cfg.StateTypes[types.TypeString(types.Unalias(T), nil)]
+	case kPtrVal:
+		return "(option " + t.coqType(n, types.Unalias(T).Underlying().(*types.Pointer).Elem()) + ")"
 	case kInt, kRune:
 		return "Z"
 	case kMap:
+		if t.cfg.AssocMaps {
+			return "(gomap " + t.coqType(n, types.Unalias(T).Underlying().(*types.Map).Elem()) + ")"
+		}
 		return "(bytes -> " + t.coqType(n, types.Unalias(T).Underlying().(*types.Map).Elem()) + ")"
+	case kOpaque:
+		o, _ := t.opaqueOf(T)
+		return o.CoqType
+	case kRefMap:
+		return "(mapref " + t.coqType(n, t.refMapElem(T)) + ")"
 	case kByte:
 		return "byte"
 	case kBool, kError:
@@ -487,11 +624,20 @@ func (t *translator) coqType(n ast.Node, T types.Type) string {
 }
 
 func (t *translator) zero(n ast.Node, T types.Type) string {
+	if s, ok := t.zeroExt(n, T); ok { // ext.go
+		return s
+	}
+	if t.cfg.ErrorValues && t.kindOf(T) == kError {
+		return "ErrNil" // state.go
+	}
 	switch t.kindOf(T) {
 	case kInt, kRune:
 		return "0%Z"
 	case kMap:
 		// a nil map reads as the zero value everywhere
+		if t.cfg.AssocMaps {
+			return "go_map_empty"
+		}
 		return "(fun _ => " + t.zero(n, types.Unalias(T).Underlying().(*types.Map).Elem()) + ")"
 	case kByte:
 		return "x00"
@@ -499,6 +645,11 @@ func (t *translator) zero(n ast.Node, T types.Type) string {
 		return "false"
 	case kString, kBytes, kSlice:
 		return "[]"
+	case kOpaque:
+		o, _ := t.opaqueOf(T)
+		return o.Zero
+	case kRefMap:
+		return "go_mapref_nil"
 	case kStruct:
 		s, st, _ := t.structOf(T)
 		parts := []string{s.Ctor}
@@ -572,6 +723,9 @@ func (t *translator) pkgVar(id *ast.Ident, obj *types.Var) string {
 				if fd.Recv == nil && inSet(t.cfg.Funcs, fd.Name.Name) {
 					return false
 				}
+				if fd.Recv != nil && inSet(t.cfg.Funcs, funcKey(fd)) && t.decls[funcKey(fd)] == fd {
+					return false // a translated method
+				}
 			}
 			if x, ok := n.(*ast.Ident); ok && t.info.Uses[x] == obj {
 				t.fail(x, "package-level variable %s is also referenced outside the translated functions", obj.Name())
@@ -601,6 +755,9 @@ func (t *translator) pkgVar(id *ast.Ident, obj *types.Var) string {
 	}
 	if init == nil {
 		t.fail(id, "package-level variable %s: declaration not found", obj.Name())
+	}
+	if name, ok := t.sentinelVar(obj, init); ok {
+		return name // state.go
 	}
 	ft := &funcTr{t: t, name: "var " + obj.Name(), names: map[types.Object]string{}}
 	pres, term := ft.expr(init, obj.Type())
@@ -646,6 +803,22 @@ type funcTr struct {
 	makeVar map[types.Object]bool
 	parents map[ast.Node]ast.Node
 	root    ast.Node // what the aliasing conditions are checked on: the body, or a prefix of a block
+	mapVar  map[types.Object]bool // locals made by make(map[string]T) (data.go)
+	mutOK   *ast.CallExpr         // the Mutates call being translated as a statement (data.go)
+
+	// methods.go: the receiver of a translated method; the method changes it (its state is part of
+	// the result); the body contains a no-return call (the result is an exit); inside a literal
+	recv  *types.Var
+	mut   bool
+	fails bool
+	inLit int
+
+	// state.go (Config.StatePassing): the pointer receiver and the pointer parameters: passed in
+	// as values, their final values are returned in front of the results
+	stateVars []*types.Var
+
+	// ext.go / segment.go: the state of their constructs (nil outside a Segment)
+	ext *funcExt
 }
 
 func sanitize(s string) string {
@@ -680,7 +853,10 @@ func (ft *funcTr) temp() string {
 }
 
 func (ft *funcTr) resultType() string {
-	return ft.t.coqType(ft.fd, ft.sig.Results())
+	if ft.t.cfg.StatePassing && ft.inLit == 0 {
+		return ft.stateResultType() // state.go
+	}
+	return ft.wrapType(ft.t.coqType(ft.fd, ft.sig.Results()))
 }
 
 func (t *translator) function(fd *ast.FuncDecl) string {
@@ -716,11 +892,16 @@ func (t *translator) function(fd *ast.FuncDecl) string {
 		stack = append(stack, n)
 		return true
 	})
+	ft.setupMethod()
+	ft.setupState()
 	ft.checkAliasing()
 
 	var params []string
 	if t.needFuel[ft.name] {
 		params = append(params, "(fuel : nat)")
+	}
+	if rb := ft.recvBinder(); rb != "" {
+		params = append(params, rb)
 	}
 	for i := 0; i < sig.Params().Len(); i++ {
 		p := sig.Params().At(i)
@@ -947,6 +1128,8 @@ func (ft *funcTr) rootVar(e ast.Expr) *types.Var {
 			e = x.X
 		case *ast.IndexExpr:
 			e = x.X
+		case *ast.StarExpr:
+			e = x.X
 		case *ast.Ident:
 			if x.Name == "_" {
 				return nil
@@ -1005,8 +1188,28 @@ func (ft *funcTr) assigned(lo, hi token.Pos, nodes ...ast.Node) []*types.Var {
 				if c, ok := s.X.(*ast.CallExpr); ok && ft.builtin(c) == "copy" && len(c.Args) == 2 {
 					add(c.Args[0])
 				}
+				if id := ft.mutTarget(s.X); id != nil {
+					add(id)
+				}
 			case *ast.FuncLit:
+				// a literal handed to a library function assigns nothing outside itself (funcLit)
+				if c, ok := ft.up(s).(*ast.CallExpr); ok {
+					if _, _, isLib := ft.libOf(c); isLib {
+						return false
+					}
+				}
 				ft.t.fail(s, "function literal")
+			case *ast.CallExpr:
+				// a translated method that changes the receiver assigns it (methods.go)
+				if r := ft.assignedByCall(s); r != nil {
+					add(r)
+				}
+				ft.stateTargets(s, add) // state.go
+				ft.assignedExt(s, func(v *types.Var) { // ext.go
+					if !(v.Pos() >= lo && v.Pos() < hi) {
+						set[v] = true
+					}
+				})
 			}
 			return true
 		})
@@ -1065,6 +1268,10 @@ func hasJump(nodes ...ast.Node) bool {
 			switch n.(type) {
 			case *ast.ReturnStmt, *ast.BranchStmt, *ast.ForStmt, *ast.RangeStmt:
 				found = true
+			case *ast.ExprStmt:
+				if isNoReturnStmt(n) { // methods.go
+					found = true
+				}
 			}
 			return !found
 		})
@@ -1104,6 +1311,8 @@ func fallsThrough(list []ast.Stmt) bool {
 	switch s := list[len(list)-1].(type) {
 	case *ast.ReturnStmt, *ast.BranchStmt:
 		return false
+	case *ast.ExprStmt:
+		return !isNoReturnStmt(s) && !isPanicStmt(s) // methods.go, state.go
 	case *ast.BlockStmt:
 		return fallsThrough(s.List)
 	case *ast.IfStmt:
@@ -1146,6 +1355,10 @@ func (ft *funcTr) checkAliasing() {
 		case *ast.SelectorExpr:
 			if o := obj(x.X); o != nil {
 				return fmt.Sprintf("%p.%s", o, x.Sel.Name)
+			}
+		case *ast.StarExpr:
+			if o := obj(x.X); o != nil {
+				return fmt.Sprintf("%p.*", o)
 			}
 		}
 		return ""
@@ -1193,11 +1406,22 @@ func (ft *funcTr) checkAliasing() {
 		}
 	}
 	// 1. make'd slices: the only targets of stores and copy, used linearly
+	ft.mapVar = map[types.Object]bool{}
 	for _, a := range asgs {
-		if a.rhs != nil && isCall(a.rhs, "make") != nil {
+		if a.rhs != nil && ft.isRefMapExpr(a.rhs) {
+			continue // make of a map of Config.RefMaps (methods.go)
+		}
+		if a.rhs != nil && (isCall(a.rhs, "make") != nil || ft.freshCall(a.rhs)) {
 			o := obj(a.lhs)
-			if _, ok := ft.isLocal(o); !ok {
+			if _, ok := ft.isLocal(o); !ok || (ft.freshCall(a.rhs) && !ft.storedInto(o)) {
+				if ft.freshCall(a.rhs) {
+					continue // the result is not stored into: an ordinary value
+				}
 				t.fail(a.node, "make: the result must be assigned to a local variable")
+			}
+			if c := isCall(a.rhs, "make"); c != nil && len(c.Args) > 0 && t.kindOf(info.Types[c.Args[0]].Type) == kMap {
+				ft.mapVar[o] = true
+				continue
 			}
 			ft.makeVar[o] = true
 		}
@@ -1205,7 +1429,7 @@ func (ft *funcTr) checkAliasing() {
 	for o := range ft.makeVar {
 		n := 0
 		for _, a := range asgs {
-			if obj(a.lhs) == o {
+			if obj(a.lhs) == o && !ft.selfSlice(a.lhs, a.rhs) {
 				n++
 			}
 		}
@@ -1242,6 +1466,9 @@ func (ft *funcTr) checkAliasing() {
 		case *ast.ReturnStmt:
 			return true
 		}
+		if ft.ownedUse(id) {
+			return true
+		}
 		t.fail(id, "slice %s made by make is used in a way that may create an alias (allowed: %s[i], %s[i] = v, len, copy(%s, ...), return)", id.Name, id.Name, id.Name, id.Name)
 		return true
 	})
@@ -1250,7 +1477,10 @@ func (ft *funcTr) checkAliasing() {
 		case *ast.AssignStmt:
 			for _, l := range s.Lhs {
 				if ix, ok := ast.Unparen(l).(*ast.IndexExpr); ok {
-					if o := obj(ix.X); o == nil || !ft.makeVar[o] {
+					if ft.isRefMapExpr(ix.X) {
+						continue // methods.go
+					}
+					if o := obj(ix.X); o == nil || !(ft.makeVar[o] || ft.mapVar[o]) {
 						t.fail(l, "element store into a slice that was not made by make in this function")
 					}
 				}
@@ -1272,6 +1502,7 @@ func (ft *funcTr) checkAliasing() {
 		return true
 	})
 	// 2. append only as x = append(x, ...) on an owned target that starts empty
+	cutBack := map[types.Object]bool{} // append targets that are also cut back (data.go)
 	appendTargets := map[string]ast.Expr{}
 	ast.Inspect(ft.root, func(n ast.Node) bool {
 		c, ok := n.(*ast.CallExpr)
@@ -1307,15 +1538,23 @@ func (ft *funcTr) checkAliasing() {
 	for _, k := range keys {
 		target := appendTargets[k]
 		root := ft.rootVar(target)
-		for i := 0; i < ft.sig.Params().Len(); i++ {
+		_, isDeref := ast.Unparen(target).(*ast.StarExpr) // *p = append(*p, ...): the pointee is the caller's (state.go: checkState)
+		for i := 0; i < ft.sig.Params().Len() && !isDeref; i++ {
 			if ft.sig.Params().At(i) == root {
 				t.fail(target, "append to (a field of) parameter %s", root.Name())
 			}
 		}
 		_, isField := ast.Unparen(target).(*ast.SelectorExpr)
+		ft.checkOwnedAppend(target, root) // methods.go
 		for _, a := range asgs {
 			if key(a.lhs) == k {
 				if a.rhs != nil && (isCall(a.rhs, "append") != nil || isEmptyInit(a.rhs)) {
+					continue
+				}
+				if !isField && ft.selfSlice(a.lhs, a.rhs) {
+					// x = x[a:b] on an append target that does not escape
+					ft.noEscape(types.Object(root), a.node)
+					cutBack[types.Object(root)] = true
 					continue
 				}
 				t.fail(a.node, "the append target is also assigned something that may share its backing array")
@@ -1331,7 +1570,7 @@ func (ft *funcTr) checkAliasing() {
 				t.fail(a.node, "the struct whose field is an append target is assigned a value whose field may share a backing array")
 			}
 		}
-		if !isField && !zeroDecl[root] {
+		if !isField && !isDeref && !zeroDecl[root] {
 			ok := false
 			for _, a := range asgs {
 				if key(a.lhs) == k && isEmptyInit(a.rhs) {
@@ -1371,6 +1610,14 @@ func (ft *funcTr) checkAliasing() {
 			return true
 		}
 		p := ft.parents[e]
+		if ft.ptrAllowed(e, p, T) {
+			return true // state.go
+		}
+		if u, isAddr := e.(*ast.UnaryExpr); isAddr && u.Op == token.AND && ft.opaqueVar(e) != nil {
+			if _, isArg := ft.up(e).(*ast.CallExpr); isArg {
+				return true // &x handed to a table function (data.go)
+			}
+		}
 		switch x := e.(type) {
 		case *ast.ParenExpr:
 			return true
@@ -1426,6 +1673,9 @@ func (ft *funcTr) checkAliasing() {
 			}
 		}
 	}
+	ft.checkData(cutBack)
+	ft.checkMapUses() // methods.go
+	ft.checkState()   // state.go
 }
 
 // literalFieldEmpty: in the struct literal cl the field is omitted or nil.
